@@ -24,7 +24,7 @@ type c10Scenario struct {
 func genC10(t *rapid.T, st *pbt.Stats) (*lab.Case, c10Scenario) {
 	engine := []string{"v1", "v2"}[lab.Uniform(t, "engine", 2)]
 	kinds := []string{"dlq-threshold", "dlq-write-failure", "proc-error-not-absorbed", "nack-threshold-0", "read-fault", "dst-stream-error",
-		"stop-during-backoff", "stopall-during-backoff", "stop-healthy", "stopall-healthy"}
+		"stop-during-backoff", "stopall-during-backoff", "stop-healthy", "stopall-healthy", "fatal-during-stop"}
 	if engine == "v2" {
 		kinds = append(kinds, "non-converging-processor")
 	}
@@ -124,6 +124,22 @@ func genC10(t *rapid.T, st *pbt.Stats) (*lab.Case, c10Scenario) {
 		c.DLQ.WindowSize, c.DLQ.Threshold = 0, 0
 		c.Procs = []lab.ProcSpec{{ID: "proc0", Parent: "", Workers: 1, Gen: 1, PerRecord: map[string]string{lab.Key(0, at, 0): lab.KNil}}}
 		sc.Expect, sc.Cause = "fatal", "retry"
+	case "fatal-during-stop":
+		// a fatal cause and a user's graceful stop at a drawn instant: whichever the run meets
+		// first decides (the oracle reads from the history whether the cause occurred in the run)
+		if rapid.Bool().Draw(t, "cause-proc") {
+			c.DLQ.WindowSize, c.DLQ.Threshold = 1, 0
+			c.Procs = []lab.ProcSpec{{ID: "proc0", Parent: "", Workers: 1, Gen: 1, PerRecord: map[string]string{lab.Key(0, at, 0): lab.KError}}}
+			sc.Cause = lab.Marker
+		} else {
+			c.DLQ.WindowSize, c.DLQ.Threshold = 0, 0
+			c.Dests[0].PerPiece[lab.Key(0, at, 0)] = lab.OutNack
+			c.DLQ.PerRecord[lab.Key(0, at, 0)] = []lab.Outcome{lab.OutNack, lab.OutErr}[lab.Uniform(t, "dlqout", 2)]
+		}
+		c.Client = []lab.ClientAction{{Kind: "stop", AtStep: rapid.IntRange(0, 2*n).Draw(t, "stopat")}}
+		// the engine logs between its steps; a slow sink widens those windows
+		c.LogDelayMs = []int{0, 1, 3}[lab.Uniform(t, "logdelay", 3)]
+		sc.Expect = "fatal-if-met"
 	}
 	return c, sc
 }
@@ -215,7 +231,28 @@ func c10Oracle(c *lab.Case, sc c10Scenario, res *lab.Result, h *lab.History) []l
 		vs = append(vs, v)
 	}
 
-	switch sc.Expect {
+	expect := sc.Expect
+	if expect == "fatal-if-met" {
+		// did the first run meet the fatal cause? the processor was handed the record it fails,
+		// or the DLQ was handed the record it refuses
+		met := false
+		for _, e := range res.Events {
+			if e.Kind == lab.EvProcCall && len(c.Procs) > 0 && c.Procs[0].PerRecord[lab.Key(e.Src, e.Seq, 0)] == lab.KError {
+				met = true
+			}
+			if e.Kind == lab.EvDstWrite && lab.IsDLQ(e.Comp) {
+				if _, refuses := c.DLQ.PerRecord[lab.Key(e.Src, e.Seq, 0)]; refuses {
+					met = true
+				}
+			}
+		}
+		if met {
+			expect = "fatal"
+		} else {
+			expect = "user-stopped"
+		}
+	}
+	switch expect {
 	case "fatal":
 		if final != "Degraded" {
 			add("fatal-cause-not-degraded", fmt.Sprintf("final status %s, expected Degraded", final), len(res.Events))
@@ -253,7 +290,7 @@ func c10Oracle(c *lab.Case, sc c10Scenario, res *lab.Result, h *lab.History) []l
 	case "user-stopped", "system-stopped":
 		want := "UserStopped"
 		kindCtl := "stop"
-		if sc.Expect == "system-stopped" {
+		if expect == "system-stopped" {
 			want, kindCtl = "SystemStopped", "stopall"
 		}
 		// only a stop that was accepted counts
@@ -299,6 +336,46 @@ func truncateStr(s string, n int) string {
 	return s
 }
 
+// c10Run runs one scenario. The runner's final graceful stop must not cut the scenario short:
+// a scenario whose expectation speaks about how the pipeline ends by itself is only "ready" for
+// the final stop once that happened (or after lab.Quiet of silence).
+func c10Run(c *lab.Case, sc c10Scenario, pick func(int) int) *lab.Result {
+	o := lab.RunOpts{}
+	if sc.Kind == "stop-during-backoff" || sc.Kind == "stopall-during-backoff" {
+		// the call is issued as soon as the pipeline reports Recovering (inside the back-off)
+		o.Prepare = func(w *lab.World, r *lab.Runner) {
+			fired := false
+			w.Hooks.OnStatus = func(id string, s pipeline.Status, after bool) {
+				if after && !fired && s.String() == "Recovering" {
+					fired = true
+					kind := "stop"
+					if sc.Kind == "stopall-during-backoff" {
+						kind = "stopall"
+					}
+					go r.Issue(lab.ClientAction{Kind: kind})
+				}
+			}
+		}
+	}
+	switch sc.Expect {
+	case "fatal", "transient-exhausts":
+		// these end in a terminal status by themselves
+		o.Ready = func(*lab.World, pipeline.Status) bool { return false }
+	case "transient-recovers", "transient":
+		// ready once the pipeline was restarted at least once and runs again
+		o.Ready = func(w *lab.World, st pipeline.Status) bool {
+			opens := 0
+			for _, e := range w.Log.Snapshot() {
+				if e.Kind == lab.EvSrcOpen && e.Info == "" {
+					opens++
+				}
+			}
+			return opens >= 2 && st == pipeline.StatusRunning
+		}
+	}
+	return lab.RunCaseOpts(c, pick, o)
+}
+
 // TestC10: fatal causes degrade, transient ones recover (bounded), stopped stays stopped.
 func TestC10(t *testing.T) {
 	st := pbt.For("C10")
@@ -306,32 +383,14 @@ func TestC10(t *testing.T) {
 	rapid.Check(t, func(t *rapid.T) {
 		c, sc := genC10(t, st)
 		pbt.MarkCurrent("C10", map[string]any{"case": c, "scenario": sc})
-		var res *lab.Result
-		if sc.Kind == "stop-during-backoff" || sc.Kind == "stopall-during-backoff" {
-			// the call is issued as soon as the pipeline reports Recovering (inside the back-off)
-			res = lab.RunCaseWith(c, rapidPick(t), func(w *lab.World, r *lab.Runner) {
-				fired := false
-				w.Hooks.OnStatus = func(id string, s pipeline.Status, after bool) {
-					if after && !fired && s.String() == "Recovering" {
-						fired = true
-						kind := "stop"
-						if sc.Kind == "stopall-during-backoff" {
-							kind = "stopall"
-						}
-						go r.Issue(lab.ClientAction{Kind: kind})
-					}
-				}
-			})
-		} else {
-			res = lab.RunCase(c, rapidPick(t))
-		}
+		res := c10Run(c, sc, rapidPick(t))
 		if res.ProvisionErr != nil {
 			t.Fatalf("provision: %v", res.ProvisionErr)
 		}
 		m := lab.BuildModel(c)
 		h := lab.NewHistory(c, m, res.Events)
 		f := factsOf(res, m)
-		nontrivial := f.Restarts > 0 || strings.Contains(sc.Kind, "backoff") || sc.Expect == "transient-exhausts" || (sc.Expect == "fatal" && res.FinalStatus.String() == "Degraded")
+		nontrivial := f.Restarts > 0 || strings.Contains(sc.Kind, "backoff") || sc.Expect == "transient-exhausts" || ((sc.Expect == "fatal" || sc.Expect == "fatal-if-met") && res.FinalStatus.String() == "Degraded")
 		cls := []string{"engine=" + c.Engine, "kind=" + sc.Kind, "expect=" + sc.Expect, "final=" + res.FinalStatus.String(), fmt.Sprintf("restarts=%d", f.Restarts)}
 		if res.Wedged {
 			cls = append(cls, "wedged")
@@ -375,24 +434,7 @@ func TestReplayC10(t *testing.T) {
 		b, _ := json.Marshal(doc.Replay.Case)
 		_ = json.Unmarshal(b, &c)
 		sc := doc.Replay.Scenario
-		var res *lab.Result
-		if sc.Kind == "stop-during-backoff" || sc.Kind == "stopall-during-backoff" {
-			res = lab.RunCaseWith(&c, lab.ReplayPick(c.Choices), func(w *lab.World, r *lab.Runner) {
-				fired := false
-				w.Hooks.OnStatus = func(id string, s pipeline.Status, after bool) {
-					if after && !fired && s.String() == "Recovering" {
-						fired = true
-						kind := "stop"
-						if sc.Kind == "stopall-during-backoff" {
-							kind = "stopall"
-						}
-						go r.Issue(lab.ClientAction{Kind: kind})
-					}
-				}
-			})
-		} else {
-			res = lab.RunCase(&c, lab.ReplayPick(c.Choices))
-		}
+		res := c10Run(&c, sc, lab.ReplayPick(c.Choices))
 		m := lab.BuildModel(&c)
 		vs := c10Oracle(&c, sc, res, lab.NewHistory(&c, m, res.Events))
 		for _, v := range vs {
